@@ -117,6 +117,33 @@ class Gen:
             msgs.append('%d:%s:%s:%s' % (rng.randrange(5), hx(rng.choice(TEXTS)), f, a))
         return tree, msgs
 
+    def deep_case(self):
+        """a chain of 30-48 nested pipelines (scoped/unscoped, all four kinds), setters/formatters on the way down,
+        a probe + sink at the bottom and a probe after every level on the way up"""
+        rng = self.rng
+        self.accepting = True
+        self.oid = 0; self.shared = {}; self.made = []; self.feat = {'deep_chain'}; self.pending_read = None
+        depth = rng.randint(31, 48)
+        kinds, simple = [], True
+        for _ in range(depth):
+            k = rng.choice(['(', '(!', '(+', '(-'] if simple else ['(', '(+', '(-'])
+            kinds.append(k); simple = k in ('(', '(!')
+        inner = [('L', 'p:%d' % self.fresh()), ('L', 's:%d' % self.fresh())]
+        for k in reversed(kinds):
+            level = []
+            r = rng.random()
+            if r < 0.3: level.append(('L', 'as:%d:%s:%s' % (self.fresh(), self.key(), hx(rng.choice(VALS)))))
+            elif r < 0.5: level.append(('L', 'mt:%d:%s' % (self.fresh(), hx(rng.choice(TAGS)))))
+            elif r < 0.6: level.append(('L', self.many(self.fresh())))
+            elif r < 0.65: level.append(('Z',))
+            if rng.random() < 0.3: level.append(('L', 'p:%d' % self.fresh()))
+            level.append(('P', k, inner))
+            if rng.random() < 0.5: level.append(('L', 'p:%d' % self.fresh()))
+            if rng.random() < 0.15: level.append(('L', 's:%d' % self.fresh()))
+            inner = level
+        msgs = ['%d:%s:%s:' % (rng.randrange(5), hx(rng.choice(TEXTS)), rng.choice(['n', 'f' + hx('pre')])) for _ in range(rng.randint(1, 2))]
+        return inner, msgs
+
     def fresh(self):
         self.oid += 1
         return self.oid
@@ -350,34 +377,55 @@ class Runner:
         return None
 
 
-def shrink_case(tree, msgs, fails, budget=250):
-    """greedy: drop messages, drop nodes (any depth), hoist children of a pipeline; keeps `fails` true"""
-    steps = [0]
+def _paths(nodes, pre=()):
+    for i, n in enumerate(nodes):
+        yield pre + (i,)
+        if n[0] == 'P':
+            yield from _paths(n[2], pre + (i,))
 
-    def variants(nodes):
-        for i, n in enumerate(nodes):
-            yield nodes[:i] + nodes[i + 1:]
-            if n[0] == 'P':
-                yield nodes[:i] + n[2] + nodes[i + 1:]
-                for v in variants(n[2]):
-                    yield nodes[:i] + [('P', n[1], v)] + nodes[i + 1:]
 
+def _edit(nodes, path, how):
+    """copy of the tree with the node at `path` deleted ('del') or replaced by its children ('hoist')"""
+    i = path[0]
+    if len(path) == 1:
+        if how == 'del':
+            return nodes[:i] + nodes[i + 1:]
+        if nodes[i][0] != 'P':
+            return None
+        return nodes[:i] + nodes[i][2] + nodes[i + 1:]
+    sub = _edit(nodes[i][2], path[1:], how)
+    if sub is None:
+        return None
+    return nodes[:i] + [('P', nodes[i][1], sub)] + nodes[i + 1:]
+
+
+def shrink_case(tree, msgs, fails, budget=600):
+    """greedy linear sweeps (last node first): drop messages, delete nodes at any depth, hoist the children of a
+    pipeline into its parent; keeps `fails` true"""
+    steps = 0
     changed = True
-    while changed and steps[0] < budget:
+    while changed and steps < budget:
         changed = False
-        for i in range(len(msgs)):
+        i = len(msgs) - 1
+        while i >= 0 and len(msgs) > 1:
             cand = msgs[:i] + msgs[i + 1:]
-            steps[0] += 1
-            if cand and fails(tree, cand):
-                msgs = cand; changed = True; break
-        if changed:
-            continue
-        for v in variants(tree):
-            steps[0] += 1
-            if steps[0] > budget:
-                break
-            if fails(v, msgs):
-                tree = v; changed = True; break
+            steps += 1
+            if fails(tree, cand):
+                msgs = cand; changed = True
+            i -= 1
+        for how in ('del', 'hoist'):
+            for path in reversed(list(_paths(tree))):
+                if steps >= budget:
+                    break
+                try:
+                    cand = _edit(tree, path, how)
+                except (IndexError, TypeError):
+                    continue        # the path vanished with an earlier edit of this sweep
+                if cand is None:
+                    continue
+                steps += 1
+                if fails(cand, msgs):
+                    tree = cand; changed = True
     return tree, msgs
 
 
@@ -429,6 +477,12 @@ def run():
     for i in range(n_gen):
         small = i % 5 == 0
         t, m = g.new_case(3 if small else 5, 3 if small else 6, accepting=(i % 6 == 1))
+        cases.append((t, m))
+        for f in g.feat:
+            feats[f] = feats.get(f, 0) + 1
+    n_deep = 200 if thorough else 12
+    for i in range(n_deep):
+        t, m = g.deep_case()
         cases.append((t, m))
         for f in g.feat:
             feats[f] = feats.get(f, 0) + 1
@@ -508,9 +562,9 @@ def run():
     chk.cov.update({
         'evaluations': len(lines), 'distinct_nontrivial': len(nontriv), 'distinct': len(set(lines)),
         'rule': 'random handler trees (depth <= 5, width <= 6 + injected motifs: probe first in / right after a child, setter before a scoped child, '
-                'attribute set inside a scoped child + later sibling reading it, rejection inside a child + sink after it, null entries, shared objects) '
+                'attribute set inside a scoped child + later sibling reading it, rejection inside a child + sink after it, null entries, shared objects; plus a few chains of 30-48 nested pipelines) '
                 'x 1..6 messages (repeated texts, pre-formatted, pre-attributed); non-trivial = has a nested pipeline and at least one delivery',
-        'corpus_cases': n_corpus, 'messages': msgs_total, 'deliveries_recorded': deliveries, 'rejections_recorded': rejections,
+        'corpus_cases': n_corpus, 'deep_chain_cases': n_deep, 'messages': msgs_total, 'deliveries_recorded': deliveries, 'rejections_recorded': rejections,
         'disagreements_model_vs_impl': len(dis), 'oracle_messages_evaluated_on_impl': sum(len(d) for d in digits),
         'oracle_falsified_cases': len(falsified), 'inline_metamorphic_messages_compared': inl_compared,
         'inline_metamorphic_mismatches': len(inl_bad), 'generator_features': feats,
